@@ -1,11 +1,11 @@
 """C17 - rasterized input/target images show the problem and only the solution."""
 ID = "C17"
 LEVEL = "exploration"
-LEVEL_TEXT = 'Bounded: input/target images recomputed independently from as_pixels for all 8 option combinations on solved mazes incl. percolation mazes with isolated cells; isolated-cell removal and pixel extension pointwise; item flags and batch order.'
+LEVEL_TEXT = 'PROVED (unbounded, z3): the two post-processing helpers pointwise for every image size - _remove_isolated_cells (a non-wall pixel whose four neighbours are wall or outside becomes wall, nothing else changes) and _extend_pixels (each pixel doubled, one-pixel wall frame, shape (2H+2, 2W+2, 3)). Bounded: input/target images recomputed independently from as_pixels for all 8 option combinations on solved mazes incl. percolation mazes with isolated cells; isolated-cell removal and pixel extension pointwise; item flags and batch order.'
 LEVEL_NOTE = 'Trusted: torch stacking; as_pixels is covered by C10.'
-TECHNIQUE = "bounded stand-in of the contract-based verifier: run-time checking of the real code against an independent executable statement over an enumerated scope (no function of this property is in the verified subset yet)"
-CONTRACT_MODULES = []
-PROVE = []
+TECHNIQUE = "contracts on the leaf functions discharged by z3 (pyvc) + bounded stand-in of the contract-based verifier: run-time checking of the real code against an independent executable statement over an enumerated scope (the proved leaf functions are listed in evidence; the composition is decided by the bounded stand-in)"
+CONTRACT_MODULES = ["contracts.raster"]
+PROVE = [("maze_dataset/maze/lattice_maze.py", "_remove_isolated_cells"), ("maze_dataset/dataset/rasterized.py", "_extend_pixels")]
 ASSUMPTIONS = []
 EXPLANATION = "see DESIGN.md C17"
 
